@@ -13,6 +13,13 @@
    that fails on an out-of-scope line); every call is validated by the same Cropper_Trace - TLC evaluates Degenerate / WidthOK /
    EndsClause on the recorded points themselves (no oracle in Python).  Every recorded call (all families) also carries the corners
    of the coordinate grid: clause 11 = the band starts at the first and ends at the last baseline point (3 px along the chord).
+4. ROUND 9.  (a) REPEAT sessions: the same line - the same heights OBJECT (float64 / float32 array, list, list of numpy scalars, tuple),
+   on the LineCropper route the same TextLine / PageLayout - is cropped three times by a long-lived cropper at a scale != 1; every call
+   is judged against the line's heights as the caller set them, the later calls also against the first crop (same-pixels clause), and
+   every recorded call of every family by the new clause 12 `band-height` (first and last row of the coordinate grid (asc+desc)*scale
+   apart).  (b) STRICT host environment: two spaces of degenerate lines only (Env = "strict", invariant StrictScope) are run with
+   np.errstate(all="raise") and with warnings as errors, every heights container, through crop() and LineCropper.process_page: the
+   fallback clause ("a blank image of the configured height, and never an error") is unconditional.
 NOT covered: geometric sampling of slanted / curved baselines between the end points, pixel values at fractional positions
 (see notes/C10.md).
 """
@@ -28,7 +35,7 @@ INV_SKEL = ["BlankOnlyDegenerate", "HeightConfigured", "WidthClause"]
 INV_GRID = INV_SKEL + ["RowMappingExact", "FastEqualsGeneral", "ShiftInvariant"]
 
 CLAUSES = {1: "height", 2: "width-of-returned-array", 3: "pixel-array-shape", 4: "grid-rows", 5: "grid-columns",
-           6: "same-pixels", 11: "baseline-ends", 7: "exact-width", 8: "exact-path", 9: "exact-outside-zero", 10: "exact-columns"}
+           6: "same-pixels", 11: "baseline-ends", 12: "band-height", 7: "exact-width", 8: "exact-path", 9: "exact-outside-zero", 10: "exact-columns"}
 
 
 def spaces(tier):
@@ -54,6 +61,13 @@ def spaces(tier):
     sp.append(("grid", K.bounds("grid", Ns=[2, 3, 4, 5] if th else [2, 4], X0s=[-3, 6], Y0s=[4, 20], DXs=[2, 20, 21, 22, 23, 24, 30, 36],
                                 Ascs=[10, 11, 20], Descs=[4, 5, 10], Hs=[16], Kinds=["rows", "cols"], Shifts=[0, 5, -6],
                                 PageH=36, PageW=40, record_px=True)))
+    # round 9 - degenerate lines only, cropped in a strict numeric environment of the host process (floating-point errors raised /
+    # warnings as errors), every heights container, both entry points: zero heights on ordinary baselines; degenerate shapes
+    strict = dict(Env="strict", EnvKinds=["fperr", "warnerr"], HKs=[0, 1, 2, 3], Vias=["engine", "linecropper"])
+    sp.append(("strict-zero-heights", K.bounds("slant", Ns=[2, 4, 5] if th else [2, 4], DXs=[5, 12, 31] if th else [5, 12], DYs=[-3, 0, 3],
+                                               Ascs=[0], Descs=[0], Hs=[16, 40], Scales=[8, 10, 15] if th else [10], **strict)))
+    sp.append(("strict-shapes", K.bounds("slant", Ns=[1, 2, 4], DXs=[0, 1], DYs=[-30, 0, 2], Ascs=[12, 20] if th else [12], Descs=[5],
+                                         Hs=[16, 48] if th else [16], Scales=[8, 10, 15] if th else [10], **strict)))
     if th:
         sp.append(("grid-32", K.bounds("grid", Ns=[2, 5], X0s=[-2, 8], Y0s=[10, 30], DXs=[2, 25, 31, 40, 47], Ascs=[24, 20, 42], Descs=[7, 11, 20],
                                        Hs=[32], Kinds=["rows", "cols"], Shifts=[0, 3], PageH=60, PageW=52, record_px=True)))
@@ -62,7 +76,8 @@ def spaces(tier):
 
 def design(ctx, name, b):
     grid = b["Family"] == "grid"
-    res = ctx.tlc("Cropper", constants=K.tla_constants(b), invariants=INV_GRID if grid else INV_SKEL, deadlock=True,
+    inv = (INV_GRID if grid else INV_SKEL) + (["StrictScope"] if b.get("Env") == "strict" else [])
+    res = ctx.tlc("Cropper", constants=K.tla_constants(b), invariants=inv, deadlock=True,
                   workers=4, timeout=1500, label="Cropper %s" % name)
     m = re.search(r"Finished computing initial states: (\d+) (?:distinct states? generated|states generated, with (\d+) of them distinct)",
                   res["out"])
@@ -82,7 +97,10 @@ def selftests(ctx, spaces_):
 
 def execute(b):
     cases = K.enumerate_cases(b)
-    traces = pmap(K.run_case, cases, procs=6)
+    if b.get("Env") == "strict" and len(cases) <= 3000:      # small spaces of fast fallbacks: forking workers costs more than the calls
+        traces = [K.run_case(c) for c in cases]
+    else:
+        traces = pmap(K.run_case, cases, procs=6)
     if len(b["Shifts"]) > 1:          # "same pixels" families: the crop of the unshifted configuration is the reference
         base = {}
         for c, t in zip(cases, traces):
@@ -102,6 +120,9 @@ def _shards(n):
 def signature(tr, prog):
     n, poly = len(tr["pts"]), tr["poly"]
     if tr["outcome"] != "ok":
+        if tr.get("env", "default") != "default":
+            return ("exception:strict-environment", "%s raised %s on a degenerate line while the host process runs numpy with %s" % (
+                "crop()", tr["outcome"], "np.seterr(all='raise')" if tr["env"] == "fperr" else "warnings as errors"))
         return "exception", "crop() raised %s" % tr["outcome"]
     if prog == 0 and tr["ev"]["inp"] == "raise":
         cls = "other"
@@ -109,8 +130,12 @@ def signature(tr, prog):
             cls = "cubic-frac>=0.9" if K.frac_high(tr["pts"]) else "cubic-integer-length" if K.integer_length(tr["pts"]) else "other"
         return ("blank-nondegenerate:poly%d:%s" % (poly, cls),
                 "get_crop_inputs raised on a non-degenerate line, crop() returned the blank fallback")
+    rep = ""
+    if tr.get("call", 1) > 1:
+        rep = "; crop %d of the same line (heights kept by the caller as %s, now %s/16 instead of [%d, %d])" % (
+            tr["call"], tr.get("hk"), tr.get("hafter"), tr["asc"], tr["desc"])
     if prog == 0:
-        return "width", "width %d of the crop is outside |w - L*H/height| <= 2 + H/height" % tr["ev"]["cwin"]
+        return "width" + (":repeat" if rep else ""), "width %d of the crop is outside |w - L*H/height| <= 2 + H/height%s" % (tr["ev"]["cwin"], rep)
     if prog == 1:
         return "blank-nondegenerate:poly%d:remap" % poly, "fast_remap raised on a non-degenerate line (path=%s)" % tr["ev"]["path"]
     if prog == 2:
@@ -119,8 +144,12 @@ def signature(tr, prog):
     if k == 11:
         return "baseline-ends", ("the band does not run from the first to the last baseline point: corners of the coordinate grid "
                                  "(1/16 px) %s, first point %s, last point %s (%d points)" % (tr["corners"], tr["pts"][0], tr["pts"][-1], n))
-    return CLAUSES.get(k, "clause%d" % k), "clause '%s' of the returned crop fails (shape %dx%d)" % (
-        CLAUSES.get(k, k), tr["ev"]["h"], tr["ev"]["w"])
+    if k == 12:
+        return "band-height" + (":repeat" if rep else ""), (
+            "first and last row of the coordinate grid are not (asc+desc)*scale = %.1f px apart: corners (1/16 px) %s%s" % (
+                (tr["asc"] + tr["desc"]) * tr["sc"] / 10.0, tr["corners"], rep))
+    return CLAUSES.get(k, "clause%d" % k) + (":repeat" if rep and k == 6 else ""), "clause '%s' of the returned crop fails (shape %dx%d)%s" % (
+        CLAUSES.get(k, k), tr["ev"]["h"], tr["ev"]["w"], rep)
 
 
 def judge(ctx, name, b, cases, traces, mechanism=False):
@@ -171,16 +200,26 @@ def run(ctx):
                "or expected crop width < 2 px",
                "'same pixels' compared within %d grey levels on a smooth page (cv2.remap rounds positions to 1/32 px)" % TOL,
                "sessions (long-lived croppers, dense baselines of up to some thousand points) are sampled, not exhaustive; the first / "
-               "last column of the coordinate grid lies within 3 px (along the chord) of the first / last baseline point")
+               "last column of the coordinate grid lies within 3 px (along the chord) of the first / last baseline point",
+               "a line cropped again (same heights object kept by the caller) is judged against the heights the caller set; first and last "
+               "row of the coordinate grid (asc+desc)*scale apart within 1 px",
+               "strict host environment (np.errstate(all='raise'), warnings as errors): only the fallback clause, only degenerate lines")
     sp = dict(spaces(ctx.tier))
     selftests(ctx, sp)
     done_selftest = False
+    strict_b, strict_cases, strict_traces = None, [], []
     for name, b in sp.items():
         ninit = design(ctx, name, b)
         cases, traces = execute(b)
-        if ninit != len(cases):
+        if ninit * K.multiplicity(b) != len(cases):
             from ..core import MachineryFailure
-            raise MachineryFailure("C10 %s: TLC explored %d configurations but the driver enumerated %d" % (name, ninit, len(cases)))
+            raise MachineryFailure("C10 %s: TLC explored %d configurations (x %d executions each) but the driver enumerated %d" % (
+                name, ninit, K.multiplicity(b), len(cases)))
+        if b.get("Env") == "strict":          # the strict spaces are validated together (one TLC launch), below
+            strict_b = strict_b or b
+            strict_cases += [dict(c, space=name) for c in cases]
+            strict_traces += traces
+            continue
         rej = judge(ctx, name, b, cases, traces, mechanism=(name == "slant-main"))
         rejected = {i for i, _ in rej}
         for i, (c, t) in enumerate(zip(cases, traces)):
@@ -197,15 +236,43 @@ def run(ctx):
                     return tr
                 ctx.selftest_corrupt("Cropper_Trace", good, corrupt, constants=dict(K.tla_constants(b), Level="property", Tol=TOL))
                 done_selftest = True
-    # sessions: history (long-lived objects, a failing call in between) and scale (dense baselines); sampled, trace-validated only
-    sess = K.sessions(ctx.tier, ctx.seed)
+    # strict host environment: degenerate lines only, fallback clause only
+    if strict_cases:
+        rej = judge(ctx, "strict-degenerate", strict_b, strict_cases, strict_traces)
+        for t in strict_traces:
+            ctx.count(1, None)
+        ctx.notes["strict_environment"] = {"calls": len(strict_cases), "rejected": len(rej),
+                                           "environments": sorted({t["env"] for t in strict_traces}),
+                                           "fell_back": sum(1 for t in strict_traces if t["ev"]["kind"] == "blank"),
+                                           "really_cropped": sum(1 for t in strict_traces if t["ev"]["kind"] == "real")}
+        good = next((t for i, t in enumerate(strict_traces) if i not in {j for j, _ in rej} and t["env"] == "fperr"), None)
+        if good is not None and ctx.tier == "thorough":
+            def escaped(tr):          # the floating-point error escapes crop()
+                tr["outcome"] = "exception:FloatingPointError"
+                return tr
+            ctx.selftest_corrupt("Cropper_Trace", good, escaped, constants=dict(K.tla_constants(strict_b), Level="property", Tol=TOL))
+    # sessions: history (long-lived objects, a failing call in between) and scale (dense baselines); sampled, trace-validated only;
+    # repeat sessions: the same line (same heights object / TextLine) cropped three times
+    sess = K.sessions(ctx.tier, ctx.seed) + K.repeat_sessions(ctx.tier, ctx.seed)
     cases, traces = K.run_sessions(sess)
     sb = K.bounds("slant")
     rej = judge(ctx, "sessions", sb, cases, traces)
     for i, (c, t) in enumerate(zip(cases, traces)):
         ctx.count(1, ("sessions", i) if t["ev"]["kind"] == "real" and t["ev"]["w"] > 1 else None)
     ctx.notes["sessions"] = {"sessions": len(sess), "calls": len(cases), "points_per_baseline": sorted({len(c["pts"]) for c in cases}),
-                             "rejected": len(rej)}
+                             "rejected": len(rej), "repeat_sessions": sum(1 for s_ in sess if s_[0].get("keep")),
+                             "repeat_calls": sum(1 for c in cases if c.get("keep"))}
+    rejs = {j for j, _ in rej}
+    good = next((t for i, t in enumerate(traces) if i not in rejs and t.get("call", 1) == 2 and t["ev"]["kind"] == "real"
+                 and len(t["corners"]) == 4 and t["sc"] != 10), None)
+    if good is not None:
+        def rescaled(tr):          # the second crop of the line samples a band scaled once more (top row moved along the normal)
+            f = tr["sc"] / 10.0
+            for top, bot in ((0, 2), (1, 3)):
+                for ax in (0, 1):
+                    tr["corners"][top][ax] = int(round(tr["corners"][bot][ax] + (tr["corners"][top][ax] - tr["corners"][bot][ax]) * f))
+            return tr
+        ctx.selftest_corrupt("Cropper_Trace", good, rescaled, constants=dict(K.tla_constants(sb), Level="property", Tol=TOL))
     good = next((t for i, t in enumerate(traces) if i not in {j for j, _ in rej} and t["ev"]["kind"] == "real"
                  and len(t["pts"]) >= 128 and len(t["corners"]) == 4), None)
     if good is not None:
